@@ -52,7 +52,7 @@ def main():
         "hooks": {"guard": "verif",
                   "enable": "go build -tags verif (harness modules use `replace github.com/cosmos/iavl => /repo`)",
                   "baseline_off_cmd": "cd /repo && for m in . cmd v2; do (cd $m && GOFLAGS=-mod=mod go test -vet=off -count=1 -timeout 25m ./...); done",
-                  "source_commits": ["verif hooks: VerifFacts and no-op yield points (build tag verif)"],
+                  "source_commits": ["verif hooks: VerifFacts and no-op yield points (build tag verif)", "verif hooks: re-export internal decoders and node fields (build tag verif)", "verif hooks: yield point before the commit of SaveVersion (build tag verif)", "verif hooks: yield point between the index check and the creation of an index-backed iterator (build tag verif)", "verif hooks: yield point after the fast-index changes of SaveVersion are staged (build tag verif)"],
                   "add_only": True},
         "engines": [
             {"name": "lean-model", "path": "lean", "serves_properties": sorted(CLAIMED), "kind_free_text": "Lean 4 model, theorems (Iavl/Props), compiled driver"},
